@@ -278,7 +278,57 @@ def _gen_loop(ctx, srcs, names, body_text, fired, kind='for-gen'):
     fired.add('R4')
     return '\n'.join(lines)
 
+_INT_T = ('i8', 'i16', 'i32', 'i64', 'i128', 'isize', 'u8', 'u16', 'u32', 'u64', 'u128', 'usize')
+def _boolcast(body, fired):
+    """R4-boolcast: `(A cmp B) as <int type>` (a bool cast to an integer, which this Verus does not accept) becomes `(if A cmp B { 1 as T } else { 0 as T })`.  Only a parenthesised
+    operand whose TOP-LEVEL tokens contain a comparison (== != <= >= < >) or a logical connective and no turbofish is rewritten; everything else is left as it is."""
+    out = body
+    guard = 0
+    while True:
+        guard += 1
+        if guard > 50: break
+        toks = lex(out)
+        done = False
+        for k, t in enumerate(toks):
+            if t.kind == 'id' and t.text == 'as':
+                p = prev_code(toks, k); o = next_code(toks, k)
+                if p < 0 or o >= len(toks) or toks[p].text != ')' or toks[o].text not in _INT_T:
+                    continue
+                # matching '('
+                depth = 0; q = p
+                while q >= 0:
+                    if toks[q].kind == 'p' and toks[q].text == ')': depth += 1
+                    elif toks[q].kind == 'p' and toks[q].text == '(':
+                        depth -= 1
+                        if depth == 0: break
+                    q -= 1
+                if q < 0: continue
+                pq = prev_code(toks, q)
+                if pq >= 0 and (toks[pq].kind == 'id' and toks[pq].text not in ('return', 'in', 'if', 'while', 'match', 'else') or toks[pq].text in (')', ']')):
+                    continue    # a call `f(..) as T`, not a parenthesised expression
+                inner = toks[q + 1:p]
+                d = 0; cmpseen = False; bad = False
+                for j, u in enumerate(inner):
+                    if u.kind == 'p' and u.text in '([{': d += 1
+                    elif u.kind == 'p' and u.text in ')]}': d -= 1
+                    elif d == 0 and u.kind == 'p' and u.text in ('<', '>', '=', '!', '&', '|'):
+                        txt = out[u.start:u.start + 2]
+                        if txt in ('==', '!=', '<=', '>=', '&&', '||') or (u.text in '<>' and out[u.start - 1:u.start] == ' ' and out[u.end:u.end + 1] in (' ', '=')):
+                            cmpseen = True
+                    if u.kind == 'p' and u.text == ':' and out[u.start:u.start + 3] == '::<':
+                        bad = True
+                if not cmpseen or bad: continue
+                T = toks[o].text
+                cond = out[toks[q].end:toks[p].start]
+                out = out[:toks[q].start] + '(if ' + cond.strip() + ' { 1 as ' + T + ' } else { 0 as ' + T + ' })' + out[toks[o].end:]
+                fired.add('R4')
+                done = True
+                break
+        if not done: break
+    return out
+
 def apply(body, fired):
+    body = _boolcast(body, fired)
     body = _s6(body, fired)
     _s7_k[0] = 0
     body = _s7(body, fired)
